@@ -30,6 +30,7 @@ def run(ctx):
         generic.no_refusal_on_grid(ctx, "C12-D4 no legal address or size is refused", ctx.repo.func(MOD, _q), {"address": _u32, "size": [48, 64, 240, 256, 4096]},
                                    inline_depth=2, what="32-bit addresses and area sizes")
     generic.cli_converters(ctx, "C12-D3b CLI converters", "suit_generator.cmd_mpi", 4)
+    generic.subcommand_dispatch(ctx, "C12-D3c sub-command dispatch", "suit_generator.cmd_mpi", 2)
     repo = ctx.repo
     ctx.use_files("suit_generator/cmd_mpi.py")
     ev = Evaluator(repo)
